@@ -6,6 +6,8 @@ import NakenVerif.FileIO.WdcImpl
 import NakenVerif.FileIO.Uf2Impl
 import NakenVerif.FileIO.ElfImpl
 import NakenVerif.FileIO.ElfReadImpl
+import NakenVerif.FileIO.Uf2ReadImpl
+import NakenVerif.FileIO.TiTxtImpl
 import NakenVerif.Generated.Limits
 import NakenVerif.Generated.SymbolsLayout
 import Std.Data.HashMap
@@ -192,6 +194,15 @@ def handleRd (args : List String) : String :=
       let r := WdcImpl.read bytes
       showLoaded "wdc" { ret := r.ret, writes := r.writes, low := r.low, high := r.high }
     else if fmt == "elf" then showElf (ElfReadImpl.read bytes)
+    else if fmt == "uf2" then
+      let r := Uf2ReadImpl.read bytes
+      -- Memory::write8 keeps low_address / high_address as the minimum / maximum address written
+      let lo := r.writes.foldl (fun m w => if w.1 < m then w.1 else m) 0xffffffff
+      let hi := r.writes.foldl (fun m w => if w.1 > m then w.1 else m) 0
+      showLoaded "uf2" { ret := r.ret, writes := r.writes, low := lo, high := hi }
+    else if fmt == "ti_txt" then
+      let r := TiTxtImpl.read chars
+      showLoaded "ti_txt" { ret := r.ret, writes := r.writes, low := r.low, high := r.high }
     else "not-modelled"
   | _ => "bad-op"
 end Driver.FileIO
